@@ -136,6 +136,9 @@ pub struct ConnCfg {
     pub initial_write_budget: Option<usize>,
     /// v5 client role: Topic Alias Maximum the library's CONNECT advertises (None = property absent)
     pub client_topic_alias_max: Option<u16>,
+    /// v5 client role: the application does not set a Receive Maximum in CONNECT (the protocol
+    /// default of 65535 applies, whatever the service configuration says)
+    pub client_receive_max_unset: bool,
 }
 
 impl ConnCfg {
@@ -170,6 +173,7 @@ impl ConnCfg {
             combined: false,
             initial_write_budget: None,
             client_topic_alias_max: None,
+            client_receive_max_unset: false,
         }
     }
 
@@ -1244,7 +1248,9 @@ pub async fn start_client_opts(cfg: &ConnCfg, app: Rc<App>, send_connack: bool) 
             Role::V5Client => {
                 let pl = v5::client::MqttConnector::<String, _>::new().connector(connector).pipeline(scfg2.clone()).await.expect("connector");
                 let mut c = v5::client::Connect::new("peer".to_string()).client_id("lib").keep_alive(Seconds(cfg2.keep_alive));
-                c = c.max_receive(cfg2.max_receive);
+                if !cfg2.client_receive_max_unset {
+                    c = c.max_receive(cfg2.max_receive);
+                }
                 if let Some(m) = cfg2.hs.max_packet_size {
                     c = c.max_packet_size(m);
                 }
